@@ -80,7 +80,7 @@ PROPS = {
         trusted=["Model.Dict hand-written from dict/parser.go and dict/util.go; the extractor's own XML reading of dict/default.go and its name interning"],
     ),
     "C10": dict(
-        domains=[("smserver", "hist", 1500, 20000), ("smserver", "cer", 500, 5000)],
+        domains=[("smserver", "hist", 1500, 20000), ("smserver", "cer", 500, 5000), ("smclient", "dialall", 1, 1), ("smclient", "dial", 200, 3000)],
         relevant=["C10:"],
         theorems=["DV.Props.C10."+t for t in ["C10_gate","C10_after","C10_meta_after_write","C10_history","C10_builtin","C10_names_refused","C10_gen"]],
         gen_obligations=["Gen.smNewRegs","Gen.cmdCapabilitiesExchange","Gen.cmdDeviceWatchdog"],
